@@ -139,3 +139,16 @@ def save_replay(prop, name, obj):
 def pmap(fn, items, workers=8):
     with concurrent.futures.ThreadPoolExecutor(max_workers=workers) as ex:
         return list(ex.map(fn, items))
+
+
+def run_chunked(cmd_for_chunk, items, chunk=48, procs=4, timeout=7200):
+    """The Atomix test cluster the harness uses does not release its memory on Close (about 90 MB per world), so
+    harness commands are run over chunks of the work in separate processes."""
+    chunks = [items[i:i + chunk] for i in range(0, len(items), chunk)]
+
+    def one(job):
+        ci, ch = job
+        cmd = cmd_for_chunk(ci, ch)
+        r = subprocess.run(cmd, stdout=subprocess.PIPE, stderr=subprocess.PIPE, text=True, timeout=timeout)
+        return ci, r.returncode, r.stdout, r.stderr
+    return pmap(one, list(enumerate(chunks)), workers=procs)
